@@ -528,6 +528,21 @@ def standin_groups(tier, seed):
                 if not ok and len(viol) < 14:
                     viol.append({'id': 'count-' + t[:40], 'input': t, 'observed': got, 'expected': [csg, len(flat)],
                                  'script': "from pgradd.GroupAdd.Group import Group\np = Group.parse(None, %r)\nprint(p.csg, len(p.psgs), p.name)  # expected %d peripherals, name %r\n" % (t, len(flat), canon)})
+    # the peripherals are those GIVEN at construction: what the caller does to its list afterwards (a work list that is pushed and popped, a buffer that is
+    # re-used) does not change which group this is
+    for csg in centres[:2]:
+        n += 1
+        buf = ['H']
+        g1 = Group(None, csg, buf)
+        buf.append('O')
+        g2 = Group(None, csg, buf)
+        buf.pop(); buf.pop(); buf.append('C')
+        g3 = Group(None, csg, buf)
+        want3 = [Group(None, csg, ['H']), Group(None, csg, ['H', 'O']), Group(None, csg, ['C'])]
+        bad3 = [i_ for i_, (g_, w_) in enumerate(zip((g1, g2, g3), want3)) if not (g_ == w_ and hash(g_) == hash(w_) and g_.name == w_.name and {w_: 1}.get(g_) == 1)]
+        if bad3:
+            viol.append({'id': 'caller-list-reused-%s' % csg, 'input': "buf = ['H']; g1 = Group(None, %r, buf); buf.append('O'); g2 = Group(None, %r, buf); ..." % (csg, csg),
+                         'observed': [g1.name, g2.name, g3.name], 'expected': [w_.name for w_ in want3]})
     # "index the same library entry": through the library's OWN lookups (membership, item access, get) and not only through a plain dict -- a group built
     # by the constructor, groups parsed from every spelling, and the canonical name as a string all find the one entry
     from pgradd.GroupAdd.Library import GroupLibrary
